@@ -31,7 +31,27 @@ def some(t):
     return ('some', t)
 
 
+def _okey(t, d=3):
+    """Cheap deterministic ordering key (literals first); ties are broken by the full rendering."""
+    if not isinstance(t, tuple) or not t:
+        return '0' + str(t)
+    if t[0] == 'lit':
+        return '0lit' + str(t[1])
+    if d == 0:
+        return '1' + str(t[0])
+    return '1' + str(t[0]) + '(' + ','.join(_okey(x, d - 1) for x in t[1:]) + ')'
+
+
 def op(name, *args):
+    # floating-point + and * are commutative bit for bit (not associative): operands are stored in a canonical order, and
+    # x*x is stored as powi(x, 2) (bit-identical), so that rules matching on terms do not depend on how the source spells them
+    if name in ('add', 'mul') and len(args) == 2:
+        a, b = args
+        if name == 'mul' and a == b and isinstance(a, tuple):
+            return ('op', 'powi', (a, ('lit', 2, 'i')))
+        ka, kb = _okey(a), _okey(b)
+        if kb < ka or (ka == kb and a != b and repr(b) < repr(a)):
+            args = (b, a)
     return ('op', name, tuple(args))
 
 
@@ -590,6 +610,15 @@ class VG:
         i = self.value(e['idx'], fr)
         self.event('index', (b, i), e)
         return ('get', b, i)
+
+    def v_repeat(self, e, fr):
+        # [x; N]: a fixed-size array with N copies (N is part of the type)
+        import re as _re
+        mt = _re.search(r';\s*(\d+)\]$', str(e.get('ty', '')))
+        x = self.value(e['e'], fr)
+        if not mt:
+            return self.note_unknown('repeat-length', e)
+        return ('seq_rep', x, lit(int(mt.group(1)), 'i'))
 
     def v_tuple(self, e, fr):
         return ('tuple', tuple(self.value_noderef(x, fr) for x in e['es']))
